@@ -274,6 +274,7 @@ class Algebra:
     def __init__(self, term_budget=20000, time_budget=20.0):
         self.atoms = []
         self.by_name = {}
+        self.root_rules = []     # [(radicand RF, root RF)]: sqrt(radicand) := root (root >= 0 stated by the caller)
         self.point_hooks = {}    # atom name -> value at witness point k (dependent atoms, e.g. unit normals)
         self.factors = []        # fid -> poly dict (primitive, content-free, lc=1)
         self.factor_index = {}   # frozen key -> fid
@@ -859,6 +860,15 @@ class Algebra:
             raise AnalysisError("fractional power of zero")
         if self.atoms_of(a, "defined"):
             a = self.expand_all(a)      # let sqrt see through named sub-expressions
+        # declared perfect squares: (radicand, non-negative root) pairs stated by the caller; the
+        # rule applies only when the radicand met here is ring-equal to the declared one
+        if self.root_rules and eis_num(e) and Fraction(e) == Fraction(1, 2):
+            for rad, root in self.root_rules:
+                try:
+                    if self.equal(a, rad, 8000):
+                        return root
+                except Budget:
+                    pass
         # semantic interning of radicands: a rational form equal (in the ring) to one that was
         # powered before is decomposed exactly like it
         if a.den or len(a.num) > 1:
